@@ -717,6 +717,35 @@ def r18_11(ctx, m):
         cplx = any(isinstance(z, ast.Call) and call_name(z) in ("iscomplexobj", "iscomplex", "issubdtype") for z in ast.walk(fi.node))
         sq2 = "sqrt(2" in t.replace(" ", "") or "2**0.5" in t.replace(" ", "") or "2.0**0.5" in t.replace(" ", "")
         ctx.check(R, f"{fi.key}::scales exactly the complex leaves by sqrt(2)", True if (cplx and sq2) else None, None, fi)
+        # the decision is taken PER LEAF: the sqrt(2) stands in a function mapped over the tree, under a complexity test of that
+        # function's own parameter (a test of the whole tree's result type rescales the real leaves of a mixed tree as well)
+        def _has_sqrt2(n_):
+            s_ = src(n_).replace(" ", "")
+            return "sqrt(2" in s_ or "2**0.5" in s_ or "2.0**0.5" in s_
+        mapped = []
+        for c in walk_no_nested(fi.node):
+            if isinstance(c, ast.Call) and call_name(c) in ("tree_map", "map") and c.args:
+                f0 = c.args[0]
+                if isinstance(f0, ast.Lambda):
+                    mapped.append((f0, [a.arg for a in f0.args.args], [f0.body]))
+                elif isinstance(f0, ast.Name):
+                    for d_ in ast.walk(fi.node):
+                        if isinstance(d_, ast.FunctionDef) and d_.name == f0.id:
+                            mapped.append((d_, [a.arg for a in d_.args.args], d_.body))
+        key2 = f"{fi.key}::the sqrt(2) is decided leaf by leaf"
+        scaled = [(fn, ps, body) for fn, ps, body in mapped if any(_has_sqrt2(b) for b in body)]
+        if not scaled:
+            ctx.und(R, key2, "no mapped function carries the sqrt(2)", fi)
+            continue
+        for fn, ps, body in scaled:
+            tests = [z for b in body for z in ast.walk(b) if isinstance(z, (ast.IfExp, ast.If))
+                     and any(isinstance(q, ast.Call) and call_name(q) in ("iscomplexobj", "iscomplex", "issubdtype")
+                             and {n_.id for a_ in q.args for n_ in ast.walk(a_) if isinstance(n_, ast.Name)} & set(ps) for q in ast.walk(z.test))]
+            good = [z for z in tests if (_has_sqrt2(z.body) if isinstance(z, ast.IfExp) else any(_has_sqrt2(s_) for s_ in z.body))
+                    and not (_has_sqrt2(z.orelse) if isinstance(z, ast.IfExp) else any(_has_sqrt2(s_) for s_ in z.orelse))]
+            ctx.check(R, key2, bool(good),
+                      f"`{short(fn, 90)}`" if good else f"`{short(fn, 90)}` multiplies by sqrt(2) without testing its own leaf `{', '.join(ps)}` for complexity: "
+                      "the real leaves of a tree that also has complex leaves get twice the variance", fi, fn)
 
 
 _run_c18g = run
